@@ -281,11 +281,15 @@ func (s *spanScreen) setSize(w, h int) {
 	// Resize buffers
 	s.renderBuffer = make([]rune, w)
 
-	if s.cursorPos.X > w {
-		s.cursorPos.X = 0
-	}
-	if s.cursorPos.Y > h {
-		s.cursorPos.Y = 0
+	// Keep cursor, saved cursor and scroll region inside the new screen.
+	s.cursorPos.X = clamp(s.cursorPos.X, 0, w-1)
+	s.cursorPos.Y = clamp(s.cursorPos.Y, 0, h-1)
+	s.savedCursorPos.X = clamp(s.savedCursorPos.X, 0, w-1)
+	s.savedCursorPos.Y = clamp(s.savedCursorPos.Y, 0, h-1)
+	s.bottomMargin = clamp(s.bottomMargin, 0, h-1)
+	if s.topMargin > s.bottomMargin {
+		s.topMargin = 0
+		s.bottomMargin = h - 1
 	}
 
 	s.setStyle(s.style)
